@@ -53,6 +53,9 @@ def gen_cfg(rng, max_vertices=72, allow_other=True, trust_bias=0.7, force_mono=T
     if cand and rng.random() < 0.3:
       k = rng.randint(1, min(2, len(cand)))
       juni.append([rng.sample(cand, k), rng.choice(["valley", "peak"])])
+      rest = [d for d in cand if d not in juni[0][0]]
+      if len(rest) >= k and rng.random() < 0.5:   # second group of the same arity on other dimensions
+        juni.append([rng.sample(rest, k), rng.choice(["valley", "peak"])])
   bmode = rng.choice(["none", "min", "max", "both", "both"])
   a = tfimpl.dy(rng, -4, 4)
   omin = a if bmode in ("min", "both") else None
